@@ -376,7 +376,17 @@ def install(I):
                     # known low zeros followed by a known one decide it
                     if z < a.w and a.bits[z] == 1:
                         return BV.const(32, z)
-                return ctx.I.fresh_num(ctx.st, 32, kind, [(0, a.w)])
+                r = ctx.I.fresh_num(ctx.st, 32, kind, [(0, a.w)])
+                if kind == 'lz':
+                    nm = ctx.I.sym_of(r, ctx.st)
+                    if nm is not None:
+                        ctx.st.facts[('lz-of', nm)] = tuple(a.bits)
+                if kind == 'ones':
+                    # remembered so that `x.count_ones() == 1` is the same test as `x.is_power_of_two()`
+                    nm = ctx.I.sym_of(r, ctx.st)
+                    if nm is not None:
+                        ctx.st.facts[('popcount-of', nm)] = tuple(a.bits)
+                return r
             v = a.value()
             if kind == 'tz':
                 r = a.w if v == 0 else (v & -v).bit_length() - 1
@@ -396,6 +406,48 @@ def install(I):
         M['core::num::<impl %s>::trailing_zeros' % t] = bitcount('tz')
         M['core::num::<impl %s>::leading_zeros' % t] = bitcount('lz')
         M['core::num::<impl %s>::count_ones' % t] = bitcount('ones')
+
+    def overflowing(base):
+        def f(ctx):
+            I, st = ctx.I, ctx.st
+            r = I.binop(st, base + 'WithOverflow', ctx.args[0], ctx.args[1], ctx.loc, ctx.fr)
+            # the caller looks at the flag itself: this is not a silent wrap site
+            if st.events and st.events[-1][0] == 'ovf':
+                st.events.pop()
+            return Struct('tuple', list(r.fields))
+        return f
+
+    def m_abs_diff(ctx):
+        I, st = ctx.I, ctx.st
+        a, b = ctx.args
+        c = I.binop(st, 'Lt', a, b, ctx.loc, ctx.fr)
+        def sub(s, x, y):
+            r = I.binop(s, 'Sub', I.norm(s, I.resub(s, x)), I.norm(s, I.resub(s, y)), ctx.loc, ctx.fr)
+            if s.events and s.events[-1][0] == 'ovf':
+                s.events.pop()
+            return r
+        if c.is_const():
+            return sub(st, b, a) if c.value() else sub(st, a, b)
+        outs = []
+        s2 = st.clone()
+        if I.assume(s2, c.bits[0], 1) and not s2.dead:
+            outs.append(ctx.ret(sub(s2, b, a), s2))
+        if I.assume(st, c.bits[0], 0) and not st.dead:
+            outs.append(ctx.ret(sub(st, a, b)))
+        return outs
+
+    def m_is_multiple_of(ctx):
+        I, st = ctx.I, ctx.st
+        a, b = ctx.args
+        if b.is_const() and b.value() == 0:
+            return I.binop(st, 'Eq', a, BV.const(a.w, 0), ctx.loc, ctx.fr)
+        return I.binop(st, 'Eq', I.binop(st, 'Rem', a, b, ctx.loc, ctx.fr), BV.const(a.w, 0), ctx.loc, ctx.fr)
+
+    for t in ('u8', 'u16', 'u32', 'u64', 'usize'):
+        for b in ('Add', 'Sub', 'Mul'):
+            M['core::num::<impl %s>::overflowing_%s' % (t, b.lower())] = overflowing(b)
+        M['core::num::<impl %s>::abs_diff' % t] = m_abs_diff
+        M['core::num::<impl %s>::is_multiple_of' % t] = m_is_multiple_of
 
     def m_to_ne_bytes(ctx):
         a = ctx.args[0]
@@ -593,6 +645,113 @@ def install(I):
         return [Outcome(o.st, 'ret', wrap(o.val)) if o.kind == 'ret' else o for o in outs]
     M['core::option::Option::<T>::map'] = m_map
     M['core::result::Result::<T, E>::map'] = m_map
+
+    # ---------------------------------------------------------------- more Option / Result combinators (closure forms of `match`)
+    def m_and_then(ctx):
+        v, clo = ctx.args
+        if v.vname in ('None', 'Err'):
+            return v
+        outs = call_closure(ctx, clo, [v.fields[0]])
+        if outs is None:
+            raise Unsupported('and_then with %r' % (clo,))
+        return outs
+    M['core::option::Option::<T>::and_then'] = m_and_then
+    M['core::result::Result::<T, E>::and_then'] = m_and_then
+
+    def m_unwrap_or_else(ctx):
+        v, clo = ctx.args
+        if v.vname in ('Some', 'Ok'):
+            return v.fields[0]
+        outs = call_closure(ctx, clo, [] if v.vname == 'None' else [v.fields[0]])
+        if outs is None:
+            raise Unsupported('unwrap_or_else with %r' % (clo,))
+        return outs
+    M['core::option::Option::<T>::unwrap_or_else'] = m_unwrap_or_else
+    M['core::result::Result::<T, E>::unwrap_or_else'] = m_unwrap_or_else
+
+    def m_ok_or_else(ctx):
+        v, clo = ctx.args
+        if v.vname == 'Some':
+            return ok(v.fields[0])
+        outs = call_closure(ctx, clo, [])
+        if outs is None:
+            raise Unsupported('ok_or_else with %r' % (clo,))
+        return [Outcome(o.st, 'ret', err(o.val)) if o.kind == 'ret' else o for o in outs]
+    M['core::option::Option::<T>::ok_or_else'] = m_ok_or_else
+
+    def m_map_or(ctx):
+        v, dflt, clo = ctx.args
+        if v.vname in ('None', 'Err'):
+            return dflt
+        outs = call_closure(ctx, clo, [v.fields[0]])
+        if outs is None:
+            raise Unsupported('map_or with %r' % (clo,))
+        return outs
+    M['core::option::Option::<T>::map_or'] = m_map_or
+    M['core::result::Result::<T, E>::map_or'] = m_map_or
+
+    def m_is_some_and(ctx):
+        v, clo = ctx.args
+        if v.vname in ('None', 'Err'):
+            return BV.const(1, 0)
+        outs = call_closure(ctx, clo, [v.fields[0]])
+        if outs is None:
+            raise Unsupported('is_some_and with %r' % (clo,))
+        return outs
+    M['core::option::Option::<T>::is_some_and'] = m_is_some_and
+    M['core::result::Result::<T, E>::is_ok_and'] = m_is_some_and
+
+    def m_then_some(ctx):
+        c, v = ctx.args
+        I, st = ctx.I, ctx.st
+        if c.is_const():
+            return some(v) if c.value() else none()
+        outs = []
+        s2 = st.clone()
+        if I.assume(s2, c.bits[0], 0) and not s2.dead:
+            outs.append(ctx.ret(none(), s2))
+        if I.assume(st, c.bits[0], 1) and not st.dead:
+            outs.append(ctx.ret(some(v)))
+        return outs
+    M['core::bool::<impl bool>::then_some'] = m_then_some
+
+    def m_opt_take(ctx):
+        ref = ctx.args[0]
+        v = deref(ctx, ref)
+        if not (isinstance(ref, Ref) and isinstance(v, Enum)):
+            return ctx.I.opaque_call(ctx)
+        ctx.I._store_at(ctx.st, ref.loc, ref.path, none())
+        return v
+    M['core::option::Option::<T>::take'] = m_opt_take
+
+    def m_opt_replace(ctx):
+        ref, nv = ctx.args
+        v = deref(ctx, ref)
+        if not (isinstance(ref, Ref) and isinstance(v, Enum)):
+            return ctx.I.opaque_call(ctx)
+        ctx.I._store_at(ctx.st, ref.loc, ref.path, some(nv))
+        return v
+    M['core::option::Option::<T>::replace'] = m_opt_replace
+
+    # ---------------------------------------------------------------- core::mem
+    def m_mem_replace(ctx):
+        ref, nv = ctx.args
+        if not isinstance(ref, Ref):
+            return ctx.I.opaque_call(ctx)
+        old = deref(ctx, ref)
+        ctx.I.store(ctx.st, ref, nv)
+        return old
+    M['core::mem::replace'] = m_mem_replace
+
+    def m_mem_swap(ctx):
+        a, b = ctx.args
+        if not (isinstance(a, Ref) and isinstance(b, Ref)):
+            return ctx.I.opaque_call(ctx)
+        va, vb = deref(ctx, a), deref(ctx, b)
+        ctx.I.store(ctx.st, a, vb)
+        ctx.I.store(ctx.st, b, va)
+        return UNIT
+    M['core::mem::swap'] = m_mem_swap
 
     def m_array_map(ctx):
         """[T; N]::map(f): element i of the result is f(element i). When f is exact and pure on an element (one returning
